@@ -18,6 +18,7 @@ from typing import IO, TYPE_CHECKING, List, Optional, Tuple
 from libcst import ClassDef, Module, Name, parse_module
 from libcst.codemod import CodemodContext
 from libcst.codemod.visitors import (
+    AddImportsVisitor,
     ApplyTypeAnnotationsVisitor,
     GatherImportsVisitor,
     ImportItem,
@@ -208,6 +209,14 @@ def apply_stub_using_libcst(
         transformed_source_module = transformer.transform_module(source_module)
 
         if confine_new_imports_in_type_checking_block:
+            # ApplyTypeAnnotationsVisitor adds the __future__ import only when it
+            # annotates something.
+            context = CodemodContext()
+            AddImportsVisitor.add_needed_import(context, "__future__", "annotations")
+            transformed_source_module = AddImportsVisitor(context).transform_module(
+                transformed_source_module
+            )
+
             newly_imported_items = get_newly_imported_items(stub_module, source_module)
 
             context = CodemodContext()
